@@ -83,7 +83,8 @@ static struct in_addr *ares_save_opt_servers(const ares_channel_t *channel,
 int ares_save_options(const ares_channel_t *channel,
                       struct ares_options *options, int *optmask)
 {
-  size_t i;
+  size_t        i;
+  ares_status_t status = ARES_SUCCESS;
 
   /* NOTE: We can't zero the whole thing out, this is because the size of the
    *       struct ares_options changes over time, so if someone compiled
@@ -102,8 +103,17 @@ int ares_save_options(const ares_channel_t *channel,
   options->resolvconf_path = NULL;
   options->hosts_path      = NULL;
 
-  if (!ARES_CONFIG_CHECK(channel)) {
+  if (channel == NULL) {
     return ARES_ENODATA;
+  }
+
+  /* The channel is read all the way down, other threads (and the event
+   * thread) replace the server list, sortlist, domains, ... under this lock */
+  ares_channel_lock(channel);
+
+  if (!ARES_CONFIG_CHECK(channel)) {
+    status = ARES_ENODATA;
+    goto done;
   }
 
   if (channel->optmask & ARES_OPT_FLAGS) {
@@ -143,7 +153,8 @@ int ares_save_options(const ares_channel_t *channel,
   if (channel->optmask & ARES_OPT_SERVERS) {
     options->servers = ares_save_opt_servers(channel, &options->nservers);
     if (options->servers == NULL) {
-      return ARES_ENOMEM;
+      status = ARES_ENOMEM;
+      goto done;
     }
   }
 
@@ -152,14 +163,16 @@ int ares_save_options(const ares_channel_t *channel,
     if (channel->ndomains) {
       options->domains = ares_malloc(channel->ndomains * sizeof(char *));
       if (!options->domains) {
-        return ARES_ENOMEM;
+        status = ARES_ENOMEM;
+        goto done;
       }
 
       for (i = 0; i < channel->ndomains; i++) {
         options->domains[i] = ares_strdup(channel->domains[i]);
         if (!options->domains[i]) {
           options->ndomains = (int)i;
-          return ARES_ENOMEM;
+          status = ARES_ENOMEM;
+          goto done;
         }
       }
     }
@@ -169,7 +182,8 @@ int ares_save_options(const ares_channel_t *channel,
   if (channel->optmask & ARES_OPT_LOOKUPS) {
     options->lookups = ares_strdup(channel->lookups);
     if (!options->lookups && channel->lookups) {
-      return ARES_ENOMEM;
+      status = ARES_ENOMEM;
+      goto done;
     }
   }
 
@@ -178,7 +192,8 @@ int ares_save_options(const ares_channel_t *channel,
     if (channel->nsort) {
       options->sortlist = ares_malloc(channel->nsort * sizeof(struct apattern));
       if (!options->sortlist) {
-        return ARES_ENOMEM;
+        status = ARES_ENOMEM;
+        goto done;
       }
       for (i = 0; i < channel->nsort; i++) {
         options->sortlist[i] = channel->sortlist[i];
@@ -190,14 +205,16 @@ int ares_save_options(const ares_channel_t *channel,
   if (channel->optmask & ARES_OPT_RESOLVCONF) {
     options->resolvconf_path = ares_strdup(channel->resolvconf_path);
     if (!options->resolvconf_path) {
-      return ARES_ENOMEM;
+      status = ARES_ENOMEM;
+      goto done;
     }
   }
 
   if (channel->optmask & ARES_OPT_HOSTS_FILE) {
     options->hosts_path = ares_strdup(channel->hosts_path);
     if (!options->hosts_path) {
-      return ARES_ENOMEM;
+      status = ARES_ENOMEM;
+      goto done;
     }
   }
 
@@ -235,7 +252,9 @@ int ares_save_options(const ares_channel_t *channel,
 
   *optmask = (int)channel->optmask;
 
-  return ARES_SUCCESS;
+done:
+  ares_channel_unlock(channel);
+  return (int)status;
 }
 
 static ares_status_t ares_init_options_servers(ares_channel_t       *channel,
